@@ -23,7 +23,8 @@ for _c in map(chr, range(0x3100)):
 
 ALPHA = list("abcxyzABC019 _-:;,.!?'()[]{}<>@#|\\\"`*+=/$^~&%") + \
     ["é", "ß", "Ж", "漢", "\U0001F600", "́", "\x00", "\x0b", "\x0c", "\x1c", "\x1e", "\x85",
-     " ", " ", " ", "　", "\t", "  ", "\U00010348", "‍"]
+     " ", " ", " ", "　", "\t", "  ", "\U00010348", "‍",
+     "\ufeff", "\u200b", "\x1a", "\x1d", "\u212b", "\u1100\u1161", "\ufffe"]   # BOM / zero-width blank inside text, SUB, GS, NFC-unstable letters, a non-character
 RARE = ["\r", "\ud800", "\udfff"]          # lone CR / lone surrogates, low rate
 
 CTX = {   # description context -> (title roles that would end it, steps expected?, table rows expected?)
